@@ -30,6 +30,7 @@ class V:
         self.vexpr = None        # marker for variant-level expression
         self.rename_form = "map"
         self.permuted = False
+        self.t_only_kref = None  # marker of the by-ref flavour when the variant-level ghosts are written as ghosts_owned + ghosts_ref
 
     def t_order(self):
         """mapped payload fields in the counterpart's positional order"""
@@ -120,6 +121,7 @@ def gen_enum_case(g, cid, opts=None):
             n_mapped = len([f for f in v.fields if f.desig != "ghost"])
             k = g.mark()
             v.t_only.append((f"go{k}" if v.tshape == "named" else n_mapped, r.choice(LEAVES), k))
+            v.t_only_kref = g.mark() if (g.chance(0.4) and not (opts or {}).get("uniform")) else None
         ec.vs.append(v)
     # From-only sub-family: positional counterpart payloads addressed by explicit index, in permuted order (`#[from(1, expr)]`)
     if (opts or {}).get("permuted", g.chance(0.2)):
@@ -151,13 +153,20 @@ def gen_enum_case(g, cid, opts=None):
         ec.vs.insert(r.randint(0, len(ec.vs)), v)
     # counterpart-only variants (enum-level #[ghosts])
     ec.t_only = []
+    ec.ghosts_split = False
     if g.chance(0.35):
         for _ in range(r.randint(1, 2)):
             shape = r.choice(["unit", "tuple", "named"])
             t = TOnly(f"X{g.mark()}", shape, [((f"z{j}" if shape == "named" else j), r.choice(LEAVES)) for j in range(0 if shape == "unit" else r.randint(1, 2))])
             t.k = g.mark()
+            t.k_ref = t.k
             t.mode = r.choice(["target", "target", "panic", "err"])
             ec.t_only.append(t)
+        # the enum-level ghosts may be written as ghosts_owned + ghosts_ref with different markers per ownership
+        ec.ghosts_split = g.chance(0.35) and not (opts or {}).get("uniform")
+        if ec.ghosts_split:
+            for t in ec.t_only:
+                t.k_ref = g.mark()
         if ec.default_case is None and g.chance(0.4):
             # one of the counterpart-only variants is left to the `_ =>` default case
             ec.default_case = dict(mode=r.choice(["target", "panic", "err"]), k=g.mark())
@@ -249,22 +258,26 @@ def render_enum_module(ec, g, fallible, draws):
             ps.append(("default", "=> " + divert(mode, dc["k"], fallible, sfb if is_from else tfb)))
         it.attrs.append(Instr(FALLIBLE_NAME[nm] if fallible else nm, "trait", ty="T", hint=None, err="super::Er" if fallible else None, params=ps))
     # enum-level ghosts
-    ents = []
-    for t in ec.t_only:
-        if t.mode == "default":
-            continue
-        expr = divert(t.mode, t.k, fallible, sfb)
-        if t.shape == "unit":
-            ents.append(dict(path=None, ident=t.name, action=expr))
-        elif t.shape == "tuple":
-            ents.append(dict(path=None, ident=None, destr=f"{t.name}(..)", action=expr))
-        else:
-            ents.append(dict(path=None, ident=None, destr=f"{t.name} {{ .. }}", action=expr))
+    def enum_ghost_entries(ref):
+        ents = []
+        for t in ec.t_only:
+            if t.mode == "default":
+                continue
+            expr = divert(t.mode, t.k_ref if ref else t.k, fallible, sfb)
+            if t.shape == "unit":
+                ents.append(dict(path=None, ident=t.name, action=expr))
+            elif t.shape == "tuple":
+                ents.append(dict(path=None, ident=None, destr=f"{t.name}(..)", action=expr))
+            else:
+                ents.append(dict(path=None, ident=None, destr=f"{t.name} {{ .. }}", action=expr))
+        return ents
+    ents = enum_ghost_entries(False)
     if ents or (ec.default_case is not None and any(t.mode == "default" for t in ec.t_only)):
-        if not ents:
-            # the default case is only emitted for From when a #[ghosts] instruction exists: give it an entry for a real variant
-            pass
-        it.attrs.append(Instr("ghosts", "ghosts", container=None, entries=ents))
+        if ec.ghosts_split and ents:
+            pair = [Instr("ghosts_owned", "ghosts", container=None, entries=ents, spelling="o2o"), Instr("ghosts_ref", "ghosts", container=None, entries=enum_ghost_entries(True), spelling="o2o")]
+            it.attrs += pair if ec.cid % 2 else pair[::-1]
+        else:
+            it.attrs.append(Instr("ghosts", "ghosts", container=None, entries=ents))
     # variants
     for v in ec.vs:
         attrs = []
@@ -283,7 +296,11 @@ def render_enum_module(ec, g, fallible, draws):
                     attrs += [Instr("map_owned", "map", container=None, member=v.tname, action=None), Instr("map_ref", "map", container=None, member=v.tname, action=None)]
             if v.hint:
                 attrs.append(Instr("type_hint", "type_hint", container=None, hint=v.hint))
-            if v.t_only:
+            if v.t_only and v.t_only_kref is not None:
+                pair = [Instr("ghosts_owned", "ghosts", container=None, entries=[dict(path=None, ident=n, action=const_of(ty, k)) for n, ty, k in v.t_only], spelling="o2o"),
+                        Instr("ghosts_ref", "ghosts", container=None, entries=[dict(path=None, ident=n, action=const_of(ty, v.t_only_kref)) for n, ty, k in v.t_only], spelling="o2o")]
+                attrs += pair if ec.cid % 2 else pair[::-1]
+            elif v.t_only:
                 attrs.append(Instr("ghosts", "ghosts", container=None, entries=[dict(path=None, ident=n, action=const_of(ty, k)) for n, ty, k in v.t_only]))
         fields = []
         for f in v.fields:
@@ -363,7 +380,7 @@ def render_enum_module(ec, g, fallible, draws):
                 dc = ec.default_case
                 arms.append(f"{p} => {refdiv(dc['mode'], dc['k'], sfb) if not getattr(ec, 'dc_two_way', False) else refdiv('panic' if dc['mode'] != 'err' else 'err', dc['k'], sfb)},")
             else:
-                arms.append(f"{p} => {refdiv(t.mode, t.k, sfb)},")
+                arms.append(f"{p} => {refdiv(t.mode, t.k_ref if ref else t.k, sfb)},")
         nm = "from_ref" if ref else "from_owned"
         L.append(f"#[allow(unreachable_code)] fn ref_{nm}(t: &T) -> {'Result<S, super::Er>' if fallible else 'S'} {{ {wrap('match t { ' + ' '.join(arms) + ' }')} }}")
         # Into: S -> T
@@ -391,7 +408,7 @@ def render_enum_module(ec, g, fallible, draws):
                     continue
                 vals.append((f.tname, ref_payload(f, f"c{i}.clone()", ref)))
             for n, ty, k in v.t_only:
-                vals.append((n, const_of(ty, k)))
+                vals.append((n, const_of(ty, v.t_only_kref if (ref and v.t_only_kref is not None) else k)))
             if v.tshape == "unit":
                 ctor = f"T::{v.tname}"
             elif v.tshape == "tuple":
